@@ -10,7 +10,7 @@ ID = "C12"
 COQ_DIR = "C12"
 RUN_MOD = "C12.Run"
 MODEL_TARGETS = ["C12/Run.vo"]
-PROOF_TARGETS = ["C12/Lemmas.vo"]
+PROOF_TARGETS = ["C12/Lemmas.vo", "C12/HistLemmas.vo"]
 PROPS = ["C12/Props.v"]
 ALLOWED_AXIOMS = []
 IMPL_TIMEOUT = 10.0
@@ -24,7 +24,16 @@ RULE = ("tables built through the public constructor PPTable(records, fields=, f
         "| + - ., blanks, non-ASCII, empty, long), header / footer absent, empty, short and longer than the table, "
         "multi-line titles (newline, blanks to strip, non-str items), record limits from the fmt and from limits= chosen "
         "around len(lines) = n_first + n_last + 1, plus rejected inputs (bad modifier, every column skipped, empty "
-        "title list).  Non-trivial = distinct table that is printed and has at least one record.")
+        "title list).  Plus histories (400 quick / 4000 thorough): 1-3 such tables alive in one process, some sharing one "
+        "PPEnumFieldType object between fields / tables or being near copies of each other (same field names, other columns, "
+        "widths, limits, records), and 4-25 calls on them: the whole table printed (str() of the no-colour rendering, or the "
+        "coloured rendering with the colour sequences stripped) any number of times, line iterators iter(table.ch_text()) of "
+        "one or several tables opened and advanced 1-6 lines at a time in any interleaving (also interleaved with whole "
+        "prints) and read to their end, table.set_fmt(...) (columns kept / '*' / same columns with other widths / new "
+        "columns, limits kept / '*' / 'n:m', rarely a rejected modifier), table.remove_columns before the first print, "
+        "PPTable(other records, fmt_obj=table.fmt, header=, footer=, limits=) clones; every call's result (lines / nothing / "
+        "exception class) is compared with the model.  Non-trivial = distinct table that is printed and has at least one "
+        "record; a history is non-trivial when at least two of its calls returned table lines.")
 TRUSTED_BASE = [
     "Python's str(value), ==, isinstance(value, Number), str.split('\\n') and the set of characters removed by str.strip() "
     "(the harness passes str(value), the alignment class, 'is None' and the ==-class index of every value to the model; "
@@ -34,20 +43,28 @@ TRUSTED_BASE = [
     "limit test, the texts of the skipped-records line and of the default footer, the enum defaults and _DFLT_LIMIT_LINES "
     "are read from ak/ppobj.py by harness/props/c12.py:gen_consts (ast, fail-closed)",
     "the fmt string used to build a table is composed by the harness from safe field names (f0..f3); parsing of fmt strings is "
-    "property C13's subject and is not modelled here",
+    "property C13's subject and is not modelled here (the same holds for the fmt strings given to set_fmt)",
+    "histories: the coloured rendering is observed through CHText.strip_colors(str(table)); a line delivered by an iterator is "
+    "read as str(CHText(line)) after its batch was fetched and again at the end of the history (harness/props/c12.py:_impl_hist)",
 ]
 ASSUMPTIONS = [
     "records are sequences with one value per field; values, header, footer and enum names contain no line break",
     "record limits are non-negative; header / footer / enum names are str",
     "Python-equal values of an enum column have the same str() (no True / 1 / 1.0 mixture in one enum column): the "
     "per-value text cache of PPEnumFieldType is not modelled",
-    "one rendering of a freshly constructed table (column widths are negotiated once, on the first print)",
+    "histories: set_fmt is not called while a line iterator of that table is running, remove_columns only before the table "
+    "(in its present format) was printed, and the records of a table are not changed between prints -- otherwise the column "
+    "widths kept from the first print (col.width) make the text differ from a fresh print; the model has no such memory",
 ]
 MODELLED = ("ak/ppobj.py: _PPTableImpl.gen_ch_lines/_make_table_line, ReprStructure.detect_actual_columns_widths and "
             "gen_title_lines_ch_chunks_all, RecordField._gen_title_lines/get_title_cell_text_len, FieldType.fit_to_width and "
             "default cell text, PPEnumFieldType text and length, limits selection (fmt section / limits=), skip_columns, "
-            "modifier verification; ak/color.py: calc_chunks_len, resize_chunks_list.  Not modelled: colours (no_color "
-            "rendering only), fmt string parsing (C13), value paths other than positions, re-rendering with finalized widths.")
+            "modifier verification; ak/color.py: calc_chunks_len, resize_chunks_list; histories (C12/Hist.v): whole prints, "
+            "lazy line iterators (CHTextResult.__iter__), _PPTableImpl.set_fmt / PPTableFormat._set_parsed_fmt / "
+            "ReprStructure._set_parsed_fmt (columns and limits kept or replaced, widths negotiated again), remove_columns, "
+            "PPTable(fmt_obj=) clones.  Not modelled: colours (only the visible text), fmt string parsing (C13), value paths "
+            "other than positions, the column widths kept between prints (observable only after remove_columns on a printed "
+            "table or after the records changed), threads.")
 
 ENUM_MODS = ("full", "val", "name")
 
@@ -1140,6 +1157,24 @@ def oracle(case, obs):
         x = check_limited()
     if x:
         out.append(x)
+    # 7. a column is as wide as its title and the cells of the records that are shown need, within its bounds
+    #    (ordinary columns; the length of an enum cell is PPEnumFieldType's own business)
+    if not out:
+        if len(body) == len(E):
+            shown = [e for e in E if e is not None]
+        else:
+            shown = [e for e in E[:nf] + (E[len(E) - nl:] if nl else []) if e is not None]
+        for j, (c, w) in enumerate(zip(vis, ws)):
+            f = fields[c["f"]]
+            lo, hi = col_bounds(c) or (1, 999)
+            if f.get("enum") is not None or lo > hi:
+                continue
+            need = max([len(str(l)) for l in tls[j]] + [len(str(recs[e][c["f"]])) for e in shown])
+            want = min(hi, max(lo, need))
+            if w != want:
+                out.append(("width-not-negotiated", f"column {j} is {w} wide; title and shown cells need {need}, "
+                            f"bounds {lo}..{hi}: expected {want}"))
+                break
     return out
 
 
@@ -1487,7 +1522,7 @@ def gen_cases(rng, tier):
         cases.append(gen_table(rng, "big"))
     for i in range(6000 if big else 500):
         cases.append(gen_chunk_case(rng))
-    hist = [gen_hist(rng) for i in range(6000 if big else 400)]
+    hist = [gen_hist(rng) for i in range(4000 if big else 400)]
     # histories are the heaviest cases for the model evaluation: spread them evenly over the Coq shards
     step = max(1, len(cases) // max(1, len(hist)))
     out = []
@@ -1636,8 +1671,8 @@ def shrink_candidates(case):
 
 
 TECHNIQUE = ("Coq proofs (induction over chunk lists, column lists and record lists) on a hand-written Gallina model of the "
-             "table printer + per-run correspondence check of the exact no_color lines (vm_compute vs implementation) + "
-             "literal constants regenerated from the source")
+             "table printer and of histories of calls on several tables + per-run correspondence check of the exact printed "
+             "lines of every call (vm_compute vs implementation) + literal constants regenerated from the source")
 LEVEL_TEXT = ("Full, about the Gallina model of the table printer, for ALL table descriptions (any fields, columns, records, "
               "texts, widths incl. 0 and min = max, limits): rectangular (every printed line has width sum(w)+n+1), "
               "separators_aligned (on offsets: '+' of the border / '|' of every title and record line at every mark; both "
@@ -1650,10 +1685,20 @@ LEVEL_TEXT = ("Full, about the Gallina model of the table printer, for ALL table
               "(a notice hides >= 1 record; needs slack >= 1 re-proved from the source), service_lines + dec_is_decimal "
               "(the notice prints that number), render_ok_iff / render_errors (which inputs are rejected, with which "
               "exception), run_verdict (the in-Coq comparison used by the correspondence check is exact).  The literals the "
-              "proofs rely on are re-read from ak/ppobj.py on every run (consts_ok).  Tested only (correspondence + oracle, "
+              "proofs rely on are re-read from ak/ppobj.py on every run (consts_ok).  Histories (C12/Hist.v: several tables, whole "
+              "prints, interleaved line iterators, set_fmt, remove_columns, fmt_obj clones), full for the model: render_alone + "
+              "history_free (every whole print of a table that was not re-formatted is the rendering of that table alone, "
+              "whatever was printed, iterated, re-formatted or cloned in between), tables_frame / iterators_frame (a call changes "
+              "only the table / iterator it is addressed to), iterator_start + iterator_stream (an iterator delivers exactly the "
+              "lines of the table as it was at its first next(), in order, whatever happens in between), set_fmt_spec / "
+              "set_fmt_ok_iff / remove_columns_spec / clone_spec; that the implementation, with its caches and shared objects "
+              "(col.width, PPEnumFieldType text and length caches, palette singletons, shared RecordFields, service-line markers), "
+              "behaves like this memory-less model is tested by the correspondence on generated histories.  Tested only (correspondence + oracle, "
               "not proved): fidelity of the model to the code; placement of break-by lines (the model's definition is the "
               "specification).  Not covered: colours, fmt-string parsing (C13), the per-value text cache of PPEnumFieldType "
-              "for ==-equal values of different types (see c12.notes.md), re-rendering with finalized widths, negative limits.")
+              "for ==-equal values of different types (see c12.notes.md), histories in which remembered column widths show "
+              "(remove_columns after a print, records changed between prints, set_fmt during an iteration), threads, negative "
+              "limits.")
 LEVEL_NOTE = ("Trusted: Coq kernel + vm_compute; the hand model's fidelity (checked by correspondence, not proved); Python's "
               "str()/==/strip() as passed in by the harness; the ast extractor and harness.")
 DESIGN_REF = "DESIGN.md section 8, C12"
